@@ -167,6 +167,8 @@ func runTermScenario(s termScenario, callers []string) termResult {
 	case "in-writer":
 		strikeGate = newGate(false)
 		out.gate = strikeGate
+	case "in-exec":
+		strikeGate = newGate(true) // inside the command of an Exec (the terminal is released)
 	case "startup-write":
 		strikeGate = newGate(true) // the first write: Run's start-up mode sequences, before the renderer is started
 		out.gate = strikeGate
@@ -213,6 +215,11 @@ func runTermScenario(s termScenario, callers []string) termResult {
 			return func() tea.Msg { panic("harness: injected panic in a command") }
 		case "u8.2":
 			return func() tea.Msg { return tea.BatchMsg(bigBatch) }
+		case "u0.3":
+			if s.Strike == "in-exec" {
+				return tea.Exec(&fakeExec{run: func(f *fakeExec) error { strikeGate.pass(); return nil }},
+					func(err error) tea.Msg { return execDoneMsg{Tag: "strike", Err: err} })
+			}
 		}
 		return nil
 	}
@@ -277,6 +284,12 @@ func runTermScenario(s termScenario, callers []string) termResult {
 	case "in-view":
 		atomicArm(strikeGate)
 		pendingSends = append(pendingSends, send(userMsg{0, 1}))
+		if !strikeGate.waitArrived(3 * time.Second) {
+			res.note = "strike point not reached"
+			return res
+		}
+	case "in-exec":
+		pendingSends = append(pendingSends, send(userMsg{0, 3}))
 		if !strikeGate.waitArrived(3 * time.Second) {
 			res.note = "strike point not reached"
 			return res
@@ -447,7 +460,7 @@ func atomicArm(g *gate) {
 
 func termMatrix(thorough bool, r *rng) []termScenario {
 	causes := []string{"quitmsg", "quitapi", "interrupt", "kill", "ctx", "readerr", "panic-update", "panic-view", "panic-cmd", "panic-init"}
-	strikes := []string{"idle", "in-update", "in-view", "in-filter", "in-writer", "batch", "in-init"}
+	strikes := []string{"idle", "in-update", "in-view", "in-filter", "in-writer", "batch", "in-init", "in-exec"}
 	pendings := []string{"none", "senders1", "senders50", "nevercmd", "neverinit", "second-quit", "second-kill"}
 	inputs := []string{"nil", "blocking", "pipe", "endless"}
 	var all []termScenario
@@ -523,6 +536,9 @@ func (s termScenario) valid() bool {
 	if s.Strike == "in-init" && (s.Cause == "quitmsg" || s.Cause == "quitapi" || s.Cause == "interrupt" ||
 		strings.HasPrefix(s.Cause, "panic") || s.Pending == "nevercmd" || s.Pending == "neverinit" || s.Pending == "second-quit" || s.Cause == "readerr") {
 		return false // messages cannot be delivered before the loop runs; Init has to return first
+	}
+	if s.Strike == "in-exec" && (s.Input == "blocking" || s.Input == "endless" || s.Cause == "readerr" || s.Cause == "panic-init" || s.Pending == "nevercmd" || s.Pending == "neverinit") {
+		return false // (a reader that cannot be cancelled costs the 500 ms release timeout; the rest needs the loop)
 	}
 	if s.Cause == "panic-view" && s.Strike == "in-view" {
 		return false
